@@ -125,18 +125,13 @@ def r3(ctx, prog):
         def nonneg(e, pol):
             if not isinstance(e, int):
                 return False
-            c = rl.norm_cmp(f, e, pol)
-            return c is not None and f.is_ref(c[1], d) and f.cv(c[2]) == 0 and c[0] in (">=",)
+            return rl.establishes(f, e, pol, ">=", rl.is_local(f, d), rl.is_const(f, lambda v: v == 0))
         for c in list(f.calls(("mi_arena_purge", "_mi_bitmap_claim_across"))) + [x for x in f.all(kind="AtomicExpr")]:
             w = cfg.guarded(cfg.pt(c), nonneg)
             ctx.check(R, w is None, f.where(c), "effect `%s` only on the `delay >= 0` edge" % f.text(c)[:60], key="C18.R3:arena_schedule:neg", witness=w)
-        def zero(e, pol):
-            if not isinstance(e, int):
-                return False
-            c = rl.norm_cmp(f, e, pol)
-            return c is not None and f.is_ref(c[1], d) and f.cv(c[2]) == 0 and c[0] == "=="
-        hit = [q for p, q, e, pol in rl.edges_with_fact(f, zero)]
-        ok = bool(hit) and all(cfg.must_pass([q], cfg.exit_points(), rl.call_to("mi_arena_purge")(f)) is None for q in hit)
+        # every path that is consistent with delay == 0 (no edge on it says delay != 0, < 0 or > 0) runs the purge
+        nonzero = lambda e, pol: rl.rel(f, e, pol, rl.is_local(f, d), rl.is_const(f, lambda v: v == 0)) in ("!=", "<", ">")
+        ok = cfg.must_pass([cfg.entry], cfg.exit_points(), rl.call_to("mi_arena_purge")(f), edge_ok=rl.no_contradiction(f, nonzero)) is None
         ctx.check(R, ok, f.where(), "on the `delay == 0` edge mi_arena_purge runs immediately on every path", key="C18.R3:arena_schedule:zero")
     # os purge: first decision is purge_delay < 0 -> return false
     f = prog.fn("_mi_os_purge_ex")
@@ -144,16 +139,15 @@ def r3(ctx, prog):
     def allowed(e, pol):
         if not isinstance(e, int):
             return False
-        c = rl.norm_cmp(f, e, pol)
-        return c is not None and rl.is_option_get(f, c[1], "mi_option_purge_delay") and f.cv(c[2]) == 0 and c[0] == ">="
+        return rl.establishes(f, e, pol, ">=", lambda j: rl.is_option_get(f, j, "mi_option_purge_delay"), rl.is_const(f, lambda v: v == 0))
     for c in f.calls(("mi_os_decommit_ex", "_mi_os_reset", "_mi_os_decommit")):
         w = cfg.guarded(cfg.pt(c), allowed)
         ctx.check(R, w is None, f.where(c), "%s only when purge_delay >= 0" % f.nodes[c]["callee"], key="C18.R3:_mi_os_purge_ex:neg", witness=w)
     # segment: allow_purge computed from purge_delay >= 0; schedule returns on !allow_purge; ==0 -> immediate
     f = prog.fn("mi_segment_os_alloc")
     st = [(a, rhs) for a, l, rhs, op in f.field_stores("allow_purge") if rhs is not None]
-    ok = bool(st) and all(any(rl.cmp_parts(f, x) and rl.cmp_parts(f, x)[0] == ">=" and rl.is_option_get(f, rl.cmp_parts(f, x)[1], "mi_option_purge_delay")
-                              and f.cv(rl.cmp_parts(f, x)[2]) == 0 for x in f.walk(rhs)) for a, rhs in st)
+    ok = bool(st) and all(any(rl.establishes(f, x, pol, ">=", lambda j: rl.is_option_get(f, j, "mi_option_purge_delay"), rl.is_const(f, lambda v: v == 0))
+                              for x, pol in rl.facts_of(f, rhs)) for a, rhs in st)
     ctx.check(R, ok, f.where(), "segment->allow_purge requires mi_option_get(purge_delay) >= 0", key="C18.R3:allow_purge")
     for fname, effects in (("mi_segment_schedule_purge", ("mi_segment_purge", "mi_commit_mask_set", "mi_segment_try_purge")),
                            ("mi_segment_try_purge", ("mi_segment_purge",))):
@@ -164,13 +158,9 @@ def r3(ctx, prog):
             ctx.check(R, w is None, f.where(c), "%s only when segment->allow_purge" % f.nodes[c]["callee"], key="C18.R3:%s:allow" % fname, witness=w)
     f = prog.fn("mi_segment_schedule_purge")
     cfg = f.cfg
-    def zero_delay(e, pol):
-        if not isinstance(e, int):
-            return False
-        c = rl.norm_cmp(f, e, pol)
-        return c is not None and rl.is_option_get(f, c[1], "mi_option_purge_delay") and f.cv(c[2]) == 0 and c[0] == "=="
-    hit = [q for p, q, e, pol in rl.edges_with_fact(f, zero_delay)]
-    ok = bool(hit) and all(cfg.must_pass([q], cfg.exit_points(), rl.call_to("mi_segment_purge")(f)) is None for q in hit)
+    nonzero = lambda e, pol: rl.rel(f, e, pol, lambda j: rl.is_option_get(f, j, "mi_option_purge_delay"), rl.is_const(f, lambda v: v == 0)) in ("!=", "<", ">")
+    purgeable = lambda e, pol: (not pol) and f.nodes[f.strip(e)]["k"] == "MemberExpr" and f.nodes[f.strip(e)]["fld"] == "allow_purge"
+    ok = cfg.must_pass([cfg.entry], cfg.exit_points(), rl.call_to("mi_segment_purge")(f), edge_ok=rl.no_contradiction(f, lambda e, pol: nonzero(e, pol) or purgeable(e, pol))) is None
     ctx.check(R, ok, f.where(), "on the `purge_delay == 0` edge mi_segment_purge runs immediately", key="C18.R3:segment_schedule:zero")
     # a positive delay sets an expiry from now + delay
     st = [(a, rhs) for a, l, rhs, op in f.field_stores("purge_expire") if rhs is not None and op == "="]
